@@ -120,7 +120,7 @@ def _dflt(f):
     return f[3] if len(f) > 3 else None
 
 
-def _field_src(deco, cidx, f):
+def _field_src(deco, cidx, f, eq_off=False):
     name, rm, init = f[0], f[1], f[2]
     d = _dflt(f)
     args = [] if init else ["init=False"]
@@ -132,13 +132,18 @@ def _field_src(deco, cidx, f):
         args.append("default=None")
     if rm is not True:
         args.append("repr=False" if rm is False else "repr=CALLS[%r]" % ("%d.%s" % (cidx, name)))
+    if eq_off:
+        args.append("eq=False")
     if deco == "define":
         return "%s: object = attrs.field(%s)" % (name, ", ".join(args))
     return "%s = attr.ib(%s)" % (name, ", ".join(args))
 
 
 def _deco_src(cs, is_base=False):
-    kw = ["slots=%r" % bool(cs["slots"]), "eq=False", "frozen=%r" % bool(cs.get("frozen", False))]
+    # eqmode: "identity" (eq=False, object identity), "true" / "raise" (eq=False + hand-written __eq__),
+    # "fields_off" (attrs' own __eq__ with every field excluded: all instances of the class are equal)
+    kw = ["slots=%r" % bool(cs["slots"]), "eq=%r" % (cs.get("eqmode") == "fields_off"),
+          "frozen=%r" % bool(cs.get("frozen", False))]
     if (cs.get("str") and not is_base) or (is_base and cs.get("base_strflag")):
         kw.append("str=True")       # base_strflag: ONLY the attrs base passes str=True; the subclass inherits __str__
     if cs.get("own_init") and not is_base:
@@ -158,6 +163,19 @@ def _class_lines(ind, deco, cname, bases, body):
 
 
 HANDMADE = "<handmade repr>"
+
+
+class EqCalled(Exception):
+    """raised by the instrumented __eq__ (eqmode "raise"): repr must never compare instances."""
+
+
+def _eq_body(cs):
+    m = cs.get("eqmode")
+    if m == "true":
+        return ["def __eq__(self, other):", "    return True"]
+    if m == "raise":
+        return ["def __eq__(self, other):", "    raise EQC()"]
+    return []
 
 
 def _sub_body(cs, ind):
@@ -182,10 +200,10 @@ def class_source(cs, cidx):
         src += ["class StrBase%d:" % cidx, "    def __str__(self):", "        return 'bstr'"]
         bases = ["StrBase%d" % cidx]
     if cs.get("base"):
-        body = [_field_src(cs["deco"], cidx, f) for f in cs["base"]]
+        body = [_field_src(cs["deco"], cidx, f, cs.get("eqmode") == "fields_off") for f in cs["base"]] + _eq_body(cs)
         src += _class_lines(0, _deco_src(cs, True), "B" + n, bases, body)
         bases = ["B" + n]
-    body = [_field_src(cs["deco"], cidx, f) for f in cs["fields"]]
+    body = [_field_src(cs["deco"], cidx, f, cs.get("eqmode") == "fields_off") for f in cs["fields"]] + _eq_body(cs)
     if cs.get("own_init"):
         body += ["def __init__(self):", "    pass"]
     deco = _deco_src(cs)
@@ -472,7 +490,7 @@ def build_classes(specs, ctx):
     for ci, cs in enumerate(specs):
         src, tail = class_source(cs, ci)
         m = types.ModuleType("verif_c11_m%d" % next(_uid))
-        m.__dict__.update({"attr": attr, "attrs": attrs, "CALLS": calls})
+        m.__dict__.update({"attr": attr, "attrs": attrs, "CALLS": calls, "EQC": EqCalled})
         exec(compile(src, "<c11 %s>" % m.__name__, "exec"), m.__dict__)
         cls = m.CLS
         qn = cls.__qualname__
@@ -496,8 +514,15 @@ def build_heap(inp, classes):
             objs.append([])
         elif k == "d":
             objs.append({})
+        elif k == "t":
+            objs.append(None)       # immutable: built below from already existing (non-tuple) nodes
         else:
             objs.append(scalar_value(nd["v"]))
+    for i, nd in enumerate(nodes):
+        if nd["k"] == "t":
+            if any(nodes[j]["k"] == "t" for j in nd["e"]):
+                raise Infra("tuple nodes may only refer to non-tuple nodes")
+            objs[i] = tuple(objs[j] for j in nd["e"])
     for nd, ob in zip(nodes, objs):
         k = nd["k"]
         if k == "i":
@@ -734,6 +759,8 @@ def enc_heap(inp, info):
                                               '(Some "bstr")' if cs.get("base_str") else "None", fs, at))
         elif k == "l":
             out.append("OL %s" % lst(str(x) for x in nd["e"]))
+        elif k == "t":
+            out.append("OT %s" % lst(str(x) for x in nd["e"]))
         elif k == "d":
             out.append("OD %s" % lst("(%d, %d)" % (a, c) for a, c in nd["e"]))
         else:
@@ -755,14 +782,26 @@ def enc_obs(entry):
 ROUNDS = 400
 
 
+def eq_classes(inp):
+    """Per node: its equality class under Python's == as far as the harness knows it (instances of an
+    always-True __eq__ share one class, instances of a class whose attrs __eq__ compares no field share
+    one per class; everything else is only equal to itself).  Recorded in the case, never read by the model."""
+    n = len(inp["nodes"])
+    out = []
+    for i, nd in enumerate(inp["nodes"]):
+        m = inp["classes"][nd["c"]].get("eqmode") if nd["k"] == "i" else None
+        out.append(n if m == "true" else n + 1 + nd["c"] if m == "fields_off" else i)
+    return out
+
+
 def mk_case(inp, family=None):
     seen, info = real_run(inp)
     family = family or inp.get("family", "?")
     calls = lst("%s %d" % ("KRepr" if c[0] == "repr" else "KStr", c[1]) for c in inp["calls"])
     faults = lst(lst(b(x) for x in fl) for fl in (inp.get("faults") or []))
     threaded = bool(inp.get("threaded"))
-    term = "(Case %s %s %s %s %s %d %s %s)" % (
-        enc_heap(inp, info), b(bool(inp.get("warm"))), faults, b(threaded),
+    term = "(Case %s %s %s %s %s %s %d %s %s)" % (
+        enc_heap(inp, info), lst(str(x) for x in eq_classes(inp)), b(bool(inp.get("warm"))), faults, b(threaded),
         lst(str(t) for t in (inp.get("sched") or [])), ROUNDS if threaded else 0, calls,
         lst(enc_obs(e) for e in seen))
     seen_json = [{"result": r, "residue": res} for r, res in seen]
@@ -784,6 +823,8 @@ def mk_case(inp, family=None):
            "inherited_generated_str": any(
                (cs.get("base") and cs.get("base_strflag") and not cs.get("str")) or cs.get("own_repr")
                for cs in inp["classes"]) and any(c[0] == "str" for c in inp["calls"]),
+           "eqmodes": sorted({cs.get("eqmode", "identity") for cs in inp["classes"]}),
+           "has_tuple": any(nd["k"] == "t" for nd in inp["nodes"]),
            "made_by_new": any(nd.get("mk") == "new" for nd in inp["nodes"]),
            "own_init": any(cs.get("own_init") for cs in inp["classes"])}
     return Case(term, inp, seen_json, sig=sig, nontrivial=nontrivial,
@@ -801,7 +842,7 @@ RMODES = [True, False, LEAF, WRAP]
 def _cls(name, fields, **kw):
     d = {"name": name, "deco": "attr.s", "slots": False, "frozen": False, "naming": "top", "str": False,
          "base_str": False, "base": None, "fields": fields, "own_init": False, "base_strflag": False,
-         "own_repr": False}
+         "own_repr": False, "eqmode": "identity"}
     d.update(kw)
     return d
 
@@ -826,6 +867,41 @@ def _format_case(deco, slots, naming, rm, fstate, dflt, how):
 
 
 FSTATES = ["init_set", "init_unset", "noinit_unset", "noinit_set"]
+
+
+def gen_equal_but_distinct():
+    """A nested instance that COMPARES EQUAL to an ancestor being rendered but is another object must be
+    rendered in full (the guard is by identity); a real cycle is still cut.  eqmode: hand-written __eq__
+    returning True / attrs __eq__ with every field excluded (eq=False linking field) / __eq__ that raises
+    (repr must never call it); nested directly and through list / tuple / dict; slots and dict classes."""
+    out = []
+    for eqmode, slots, deco, via, depth3 in itertools.product(
+            ["true", "fields_off", "raise", "identity"], [False, True], ["attr.s", "define"],
+            ["direct", "list", "tuple", "dict"], [False, True]):
+        cs = _cls("E", [["t", True, True], ["x", True, True]], deco=deco, slots=slots, eqmode=eqmode,
+                  naming="local" if slots else "top")
+        # 0 outer, 1 inner, 2 innermost, 3 tag, 4 key, 5/6 containers, 7 leaf value
+        def link(target, cont):
+            return target if via == "direct" else cont
+        nodes = [{"k": "i", "c": 0, "a": {"t": 3, "x": link(1, 5)}, "mk": "ctor"},
+                 {"k": "i", "c": 0, "a": {"t": 3, "x": link(2, 6) if depth3 else 7}, "mk": "ctor"},
+                 {"k": "i", "c": 0, "a": {"t": 3, "x": 7}, "mk": "ctor"},
+                 {"k": "s", "v": ["s", "tag"]}, {"k": "s", "v": ["s", "k"]}]
+        for target in (1, 2):
+            if via == "dict":
+                nodes.append({"k": "d", "e": [[4, target]]})
+            else:
+                nodes.append({"k": "l" if via != "tuple" else "t", "e": [target]})
+        nodes.append({"k": "s", "v": ["i", 1]})
+        out.append({"family": "equal", "classes": [cs], "nodes": nodes,
+                    "calls": [["repr", 0], ["repr", 0], ["repr", 1]], "faults": [], "warm": False})
+        if via != "tuple" or True:
+            # the same shape closed into a real cycle: innermost (or inner) points back at the outer one
+            cyc = json.loads(json.dumps(nodes))
+            cyc[2 if depth3 else 1]["a"]["x"] = 0
+            out.append({"family": "equal", "classes": [cs], "nodes": cyc,
+                        "calls": [["repr", 0], ["repr", 1]], "faults": [], "warm": False})
+    return out
 
 
 def gen_format_inherited_str():
@@ -899,7 +975,8 @@ def rand_class(rng, idx, maxf=4, simple_names=False):
     cs = _cls("K%d" % idx, fields, deco=rng.choice(["attr.s", "define"]), slots=rng.random() < 0.5,
                 frozen=rng.random() < 0.2, naming="top" if simple_names and rng.random() < 0.5 else rng.choice(NAMINGS),
                 str=rng.random() < 0.4, base_str=rng.random() < 0.3, base=base,
-                own_init=rng.random() < 0.2, base_strflag=rng.random() < 0.4, own_repr=rng.random() < 0.3)
+                own_init=rng.random() < 0.2, base_strflag=rng.random() < 0.4, own_repr=rng.random() < 0.3,
+                eqmode=rng.choice(["identity", "identity", "identity", "true", "fields_off", "fields_off", "raise"]))
     if cs["naming"] not in ("sub_of_local", "sub_top"):
         cs["own_repr"] = False      # only the undecorated subclass can carry a hand-written __repr__
     return cs
@@ -925,7 +1002,7 @@ def gen_graph(rng, max_nodes=6, max_items=3, p_unset=0.04):
     if not any(all_fields(c) for c in classes):
         classes[0]["fields"] = [["a", True, True]]
     k = rng.randint(1, max_nodes)
-    kinds = [rng.choice("iiiilld") for _ in range(k)]
+    kinds = [rng.choice("iiiiilldt") for _ in range(k)]
     if "i" not in kinds:
         kinds[0] = "i"
     nsc = rng.randint(1, 3)
@@ -953,6 +1030,10 @@ def gen_graph(rng, max_nodes=6, max_items=3, p_unset=0.04):
             nodes[i] = {"k": "i", "c": c, "a": a, "mk": rand_mk(rng)}
         elif kd == "l":
             nodes[i] = {"k": "l", "e": [ref() for _ in range(rng.randint(0, max_items))]}
+        elif kd == "t":
+            # tuples are immutable: they can only refer to non-tuple nodes (cycles go through those)
+            e = [r for r in (ref() for _ in range(rng.randint(0, max_items))) if r >= k or kinds[r] != "t"]
+            nodes[i] = {"k": "t", "e": e}
         else:
             ks = rng.sample(key_idx, rng.randint(0, 2))
             nodes[i] = {"k": "d", "e": [[kk, ref()] for kk in ks]}
@@ -1068,7 +1149,7 @@ def generate(tier, seed):
     sz = SIZES[tier]
     _script_terms.clear()
     _script_unrecognised.clear()
-    inputs = list(gen_format_exhaustive()) + gen_format_inherited_str()
+    inputs = list(gen_format_exhaustive()) + gen_format_inherited_str() + gen_equal_but_distinct()
     for _ in range(sz["format_random"]):
         inputs.append(gen_format_random(rng))
     for _ in range(sz["graph"]):
@@ -1141,6 +1222,8 @@ def distribution(cases):
             "with_fault": sum(1 for c in cases if c.sig["fault"]),
             "unset_init_false_field_with_default": sum(1 for c in cases if c.sig["noinit_default_unset"]),
             "str_through_inherited_generated___str__": sum(1 for c in cases if c.sig["inherited_generated_str"]),
+            "eqmodes": dict(Counter(m for c in cases for m in c.sig["eqmodes"])),
+            "with_tuple": sum(1 for c in cases if c.sig["has_tuple"]),
             "instance_made_by___new__": sum(1 for c in cases if c.sig["made_by_new"]),
             "class_level_init_false_own_init": sum(1 for c in cases if c.sig["own_init"]),
             "threads_2": sum(1 for c in cases if c.sig["threaded"] and len(c.inp["calls"]) == 2),
